@@ -875,6 +875,34 @@ def place_origin(body, x, _depth=0):
     return base, fields
 
 
+def promoted_variant(body, op, _depth=0):
+    """(adt path, variant name, discriminant) if the operand is (a copy / reborrow of) a promoted constant that refers to a
+    field-less enum variant, e.g. the `&Enum::Variant` operand of a derived `==`; None otherwise"""
+    if not isinstance(op, dict) or _depth > 10:
+        return None
+    k = op.get("k")
+    if k is not None:
+        if "promoted" in k and "const_def" in k:
+            pv = body.facts.promoted.get((k["const_def"], k["promoted"]))
+            if pv:
+                ad = body.facts.adts.get(pv["adt"])
+                d = ad["variants"][pv["variant_idx"]].get("discr") if ad else None
+                return (pv["adt"], pv["variant"], pv["variant_idx"] if d is None else d)
+        return None
+    pl = op_place(op)
+    if pl is None or any(p != "*" for p in pl["p"]):
+        return None
+    defs = body.defs().get(pl["l"], [])
+    if len(defs) != 1 or defs[0][0] != "assign":
+        return None
+    rv = defs[0][3]["rv"]
+    if rv["r"] == "use":
+        return promoted_variant(body, rv["o"], _depth + 1)
+    if rv["r"] in ("ref", "rawptr") and all(p == "*" for p in rv["pl"]["p"]):
+        return promoted_variant(body, {"c": {"l": rv["pl"]["l"], "p": [], "t": 0}}, _depth + 1)
+    return None
+
+
 def const_name(body, op, _depth=0):
     """path (or printed form) of the named constant an operand is, followed through single
     assignment copies (e.g. a constant passed to a helper that was inlined); "" if it is none"""
